@@ -204,4 +204,20 @@ theorem inv_replace_stale (m : List UInt8) (p : Sha) (h : Inv m p) (junk : List 
   · omega
   · omega
 
+
+/-! ### key normalisation of RFC 2104: the two well-known key equivalences -/
+
+theorem hmacKey_long (key : List UInt8) (h : 64 < key.length) : Spec.hmacKey key = Spec.hmacKey (Spec.sha256 key) := by
+  unfold Spec.hmacKey Spec.B
+  have hl := sha256_length key
+  simp only [gt_iff_lt, h, if_true, hl, show ¬ (64 < 32) from by decide, if_false]
+
+theorem hmacKey_zero (key : List UInt8) (h : key.length < 64) : Spec.hmacKey (key ++ [0]) = Spec.hmacKey key := by
+  unfold Spec.hmacKey Spec.B
+  have h1 : ¬ (64 < key.length + 1) := by omega
+  have h2 : ¬ (64 < key.length) := by omega
+  simp only [gt_iff_lt, List.length_append, List.length_cons, List.length_nil, Nat.zero_add, h1, h2, if_false]
+  rw [List.append_assoc, show 64 - key.length = (64 - (key.length + 1)) + 1 from by omega, List.replicate_succ]
+  rfl
+
 end Nstd.Sha
